@@ -23,6 +23,7 @@ func c10Menu() []c10Node {
 		l("l", "<W>/a", "result"), l("l", "<AROUND>/sibling/canary", "bad"), l("l", "/nonexistent-verif", "bad"),
 		l("l2", "a", "ok"), l("l", "l2", "ok-needs-l2"),
 		l("l", "z/g", "result"), l("zz", "z/g", "result"), l("l", "z", "result"),
+		l("zz", "../../sibling/canary", "bad"), l("l", "../../sibling/canary", "bad"),
 		l("l", "nope", "bad"), {TNode{Path: "ff", Kind: "fifo"}, "bad"}, {TNode{Path: "d/ff", Kind: "fifo"}, "bad"},
 		l("z/l", "../../..", "bad"), l("z/ok", "g", "ok"), l("l", "self", "bad"), l("l", ".", "result"),
 		{TNode{Path: "emptydir", Kind: "dir"}, "ok"}, {TNode{Path: "x", Kind: "file", Body: "x", Mode: 0600}, "ok"},
@@ -33,7 +34,7 @@ func RunC10(tier string) int {
 	rep := core.NewReport("C10", tier)
 	thorough := tier == "thorough"
 	menu := c10Menu()
-	ruleFiles := []string{"", "z/\n", "z/\n!z/g\n", "l\n", "*\n!a\n"}
+	ruleFiles := []string{"", "z/\n", "z/\n!z/g\n", "l\n", "*\n!a\n", "l/\n"}
 	base := []TNode{{Path: "a", Kind: "file", Body: "A"}, {Path: "d/f", Kind: "file", Body: "F"}, {Path: "z/g", Kind: "file", Body: "G"}}
 	type job struct {
 		extra []c10Node
